@@ -2,7 +2,7 @@
 From Coq Require Import List NArith Bool.
 Import ListNotations.
 From Mos Require Import model.Format Gen.FmtRules model.FormatTokens model.FormatCmd spec.FormatSpec
-  proofs.FormatProofs proofs.FormatTokensProofs proofs.FormatCmdProofs.
+  proofs.FormatProofs proofs.FormatTokensProofs proofs.FormatPreserved proofs.FormatCmdProofs.
 
 (* Line assembly (join_chunks), for ALL chunk lists and ALL options: the non-whitespace characters of the output are
    exactly those of the chunk texts, in the same order -- no token or comment character is lost, invented or reordered
@@ -43,6 +43,20 @@ Theorem C12_lbrace_trivia_kept : exists o ts,
   all_comments ts = [[47; 47; 32; 99]%N] /\ chunk_comments (format_chunks o ts) = [[47; 47; 32; 99]%N].
 Proof. exact lbrace_trivia_kept. Qed.
 Print Assumptions C12_lbrace_trivia_kept.
+
+(* The whole formatter on the model (format_tokens + join_chunks), ALL token lists, ALL options, no hypothesis: the output
+   text consists of exactly the non-whitespace characters of the chunks the token layer built, in order (every chunk is
+   non-empty: invariant of push_type, proved for the whole token layer by a generic preservation theorem). *)
+Theorem C12_format_accounts : forall o ts, nows (format o ts) = nows (chunks_text (format_chunks o ts)).
+Proof. exact format_accounts. Qed.
+Print Assumptions C12_format_accounts.
+
+(* ... hence no comment is lost or reordered by the formatter as a whole: the characters of all comments of the file, in
+   source order, are a subsequence of the non-whitespace characters of the formatted text *)
+Theorem C12_no_comment_lost : forall o ts, wf_tokens ts = true ->
+  subseq (nows (concat (all_comments ts))) (nows (format o ts)).
+Proof. exact no_comment_lost. Qed.
+Print Assumptions C12_no_comment_lost.
 
 (* Two statements are never emitted back to back (repaired defect: `lda foo lda bar` became `lda foolda bar`): between a
    statement and the next one -- unless the first is a label standing in front of its statement, which join_chunks
